@@ -556,7 +556,7 @@ func (c *wsConn) handleCall(ctx context.Context, frame frame) {
 		}
 	}
 
-	vhook("fe.call", c, "id", frame.ID, "method", frame.Method)
+	vhook("fe.call", c, "id", frame.ID, "method", frame.Method, "params", string(frame.Params))
 	go c.handler.handle(ctx, req, nextWriter, rpcError, done, c.handleChanOut)
 }
 
